@@ -45,6 +45,10 @@ type Base struct {
 	// load faults: the idx-th next Load/LoadRange of a counted key fails
 	loadPlan map[int]bool
 	loads    int
+	// parking: the write with this plan key blocks (before it is sent) until Release; used to overlap two operations
+	parkAt  string
+	parked  chan struct{}
+	release chan struct{}
 }
 
 func Wrap(inner kv.Base, group func(string) (string, bool)) *Base {
@@ -62,6 +66,41 @@ func (b *Base) Arm(plan map[string]Kind) {
 	b.seen = map[string]int{}
 	b.loads = 0
 	b.Log = nil
+	b.parkAt = ""
+	if b.release != nil {
+		close(b.release) // never leave a writer parked across operations
+		b.release = nil
+	}
+	b.parked = nil
+}
+
+// ArmPark is Arm plus one parking point: the write PlanKey(group, idx) blocks before it is sent until Release is called.
+// Parked() is closed when the write has arrived there. The wrapper's own lock is not held while a write is parked.
+func (b *Base) ArmPark(plan map[string]Kind, parkKey string) {
+	b.Arm(plan)
+	b.mu.Lock()
+	defer b.mu.Unlock()
+	b.parkAt = parkKey
+	b.parked = make(chan struct{})
+	b.release = make(chan struct{})
+}
+
+// Parked is closed once the parking point armed by ArmPark has been reached.
+func (b *Base) Parked() <-chan struct{} {
+	b.mu.Lock()
+	defer b.mu.Unlock()
+	return b.parked
+}
+
+// Release lets the parked write (or, if it has not arrived yet, the armed parking point) through.
+func (b *Base) Release() {
+	b.mu.Lock()
+	defer b.mu.Unlock()
+	if b.release != nil {
+		close(b.release)
+		b.release = nil
+		b.parkAt = ""
+	}
 }
 
 // ArmLoads makes the given counted loads (0-based since the call) fail.
@@ -81,17 +120,28 @@ func (b *Base) Entries() []Entry {
 
 func (b *Base) next(op, key, value string) Kind {
 	b.mu.Lock()
-	defer b.mu.Unlock()
 	g, ok := "", true
 	if b.Group != nil {
 		g, ok = b.Group(key)
 	}
 	if !ok {
+		b.mu.Unlock()
 		return None
 	}
-	k := b.plan[PlanKey(g, b.seen[g])]
+	pk := PlanKey(g, b.seen[g])
+	k := b.plan[pk]
 	b.seen[g]++
 	b.Log = append(b.Log, Entry{op, key, g, value, k})
+	var wait chan struct{}
+	if b.parkAt != "" && pk == b.parkAt && b.release != nil {
+		b.parkAt = ""
+		close(b.parked)
+		wait = b.release
+	}
+	b.mu.Unlock()
+	if wait != nil {
+		<-wait
+	}
 	return k
 }
 
